@@ -1,20 +1,39 @@
 import ALV.Common.Json
 import ALV.Model.C09
+import ALV.Model.C09Wnd
 import ALV.Spec.C09
 import ALV.Spec.C08
 namespace ALV.Driver.C09
 open ALV ALV.J ALV.C09
 
+/-- {"r":"nums","w":[…]} | {"r":"opaque","n":k} -/
+def getIterRes (j : Json) : Except String (IterRes Rat) := do
+  match ← getStr (← field j "r") with
+  | "nums" => pure (.nums (← getList getRat (← field j "w")))
+  | "opaque" => pure (.opaque (← getNat (← field j "n")))
+  | r => throw s!"bad iteration result {r}"
+
+/-- what `wnd(size)` returns: an iteration result | {"r":"none"} | {"r":"other"} -/
+def getCallRes (j : Json) : Except String (CallRes Rat) := do
+  match ← getStr (← field j "r") with
+  | "none" => pure .pyNone
+  | "other" => pure .other
+  | _ => pure (.iterable (← getIterRes j))
+
 /-- `null` | {"kind":"seq","w":[…]} | {"kind":"callable","table":[[n,[…]],…],"default":[…]|null}
-    | {"kind":"scalar"} -/
-def getWnd (j : Option Json) : Except String (WndArg Rat) := do
+    | {"kind":"scalar"}                                   (objects already classified by the tie)
+    | {"kind":"obj","wk":<kind name>,"call":{"table":[[n,res],…],"default":res}|null,"iter":res|null}
+      (a REAL Python object of kind `wk`; what it is — called or data — is decided here, by
+       `WKind.caps` and `callStep`) -/
+def getWnd (j : Option Json) : Except String (PyWnd Rat) := do
   match j with
   | none => pure .none
+  | some Json.null => pure .none
   | some j =>
     let kind ← getStr (← field j "kind")
     match kind with
-    | "seq" => pure (.seq (← getList getRat (← field j "w")))
-    | "scalar" => pure .scalar
+    | "seq" => pure (.obj ⟨false, none, some (.nums (← getList getRat (← field j "w")))⟩)
+    | "scalar" => pure (.obj ⟨false, none, none⟩)
     | "callable" =>
       let rows ← getArr (← field j "table")
       let table ← rows.mapM fun r => do
@@ -24,10 +43,33 @@ def getWnd (j : Option Json) : Except String (WndArg Rat) := do
       let dflt ← match optField j "default" with
         | none => pure none
         | some d => pure (some (← getList getRat d))
-      pure (.callable fun n =>
+      pure (.obj ⟨false, some fun n =>
         match table.find? (·.1 = n) with
-        | some (_, l) => some l
-        | none => dflt)
+        | some (_, l) => .iterable (.nums l)
+        | none => match dflt with
+          | some l => .iterable (.nums l)
+          | none => .other, none⟩)
+    | "obj" =>
+      let name ← getStr (← field j "wk")
+      let some k := WKind.ofName name | throw s!"unknown window object kind {name}"
+      let call : Nat → CallRes Rat ← match optField j "call" with
+        | none => pure fun _ => CallRes.other
+        | some c => do
+          let rows ← getArr (← field c "table")
+          let table ← rows.mapM fun r => do
+            match r with
+            | Json.arr [n, res] => pure ((← getNat n), (← getCallRes res))
+            | _ => throw "bad call table row"
+          let dflt ← match optField c "default" with
+            | none => pure CallRes.other
+            | some d => getCallRes d
+          pure fun n => match table.find? (·.1 = n) with
+            | some (_, r) => r
+            | none => dflt
+      let iter ← match optField j "iter" with
+        | none => pure (IterRes.nums [])
+        | some i => getIterRes i
+      pure (.obj (k.mk call iter))
     | k => throw s!"unknown window kind {k}"
 
 def optNat (j : Json) (k : String) : Except String (Option Nat) :=
@@ -44,13 +86,13 @@ def outJson (o : Out Rat) : Json :=
 
 /-- the statement of the property, evaluated only where it speaks: every block has `size` items,
     `1 ≤ hop ≤ size`, the window (if any) has `size` items -/
-def specOf (blks : List (List Rat)) (size? hop? : Option Nat) (wnd : WndArg Rat) (normalize : Bool) :
+def specOf (blks : List (List Rat)) (size? hop? : Option Nat) (wnd : PyWnd Rat) (normalize : Bool) :
     Json :=
   match detectSize size? blks with
   | none => if blks.isEmpty then Json.mkObj [("out", rats []), ("gain", Json.null)] else Json.null
   | some size =>
     let hop := hop?.getD size
-    match resolveWnd size wnd with
+    match resolveOlaObj size wnd with
     | .error _ => Json.null
     | .ok w0 =>
       let w := truthy w0
@@ -137,13 +179,22 @@ def stageOf (objs : Json) (v : PV) : Except String (Res (Option (String × Rat))
       let a ← getRat (fieldD o "arg" (Json.int 0))
       pure (.ok (some (name, a)))
 
-def wndOf (objs : Json) (v : PV) : Except String (WndArg Rat) :=
+/-- `pvWnd` of the model with the environment read from the request -/
+def wndOf (objs : Json) (v : PV) : Except String (PyWnd Rat) :=
   match v with
-  | .none => pure .none
-  | .int _ => pure .scalar
   | .obj tag => do
     let o ← objOf objs tag
-    getWnd (some (← field o "wnd"))
+    let w ← getWnd (some (← field o "wnd"))
+    let env : String → Option (WObj Rat) := fun t =>
+      if t = tag then (match w with | .obj o => some o | .none => none) else none
+    match w with
+    | .none => pure .none          -- an object tag that stands for `None`
+    | _ => match pvWnd env v with
+      | some p => pure p
+      | none => throw "window object not found"
+  | _ => match pvWnd (fun _ => (none : Option (WObj Rat))) v with
+    | some p => pure p
+    | none => throw "window object not found"
 
 def traceJson (t : List (List (String × List Rat))) : Json :=
   arr (arr fun e => Json.arr [Json.str e.1, rats e.2]) t
@@ -155,16 +206,14 @@ def natOfPV (v : PV) : Except String (Option Nat) :=
   | .obj _ => throw "size/hop is an object"
 
 /-- `ola_params` understood as `overlap_add.list` arguments; `none` = unexpected keyword -/
-def olaCallOf (objs : Json) (d : Dict) : Except String (Option (OlaCall Rat)) := do
-  if d.any (fun kv => kv.1 ∉ ["size", "hop", "wnd", "normalize"]) then return none
-  let size? ← natOfPV ((dictGet d "size").getD .none)
-  let hop? ← natOfPV ((dictGet d "hop").getD .none)
-  let wnd ← wndOf objs ((dictGet d "wnd").getD .none)
-  let normalize := match dictGet d "normalize" with
-    | some (.int i) => i ≠ 0
-    | some .none => false
-    | _ => true
-  return some { size? := size?, hop? := hop?, wnd := wnd, normalize := normalize }
+def olaCallOf (objs : Json) (d : Dict) : Except String (Option (OlaCallObj Rat)) := do
+  match bindOla d with
+  | .error _ => return none
+  | .ok b =>
+    let size? ← natOfPV b.size
+    let hop? ← natOfPV b.hop
+    let wnd ← wndOf objs b.wnd
+    return some { size? := size?, hop? := hop?, wnd := wnd, normalize := pvTruthy b.normalize }
 
 def stagesOf (tr itr bef aft : Option (String × Rat)) (fn : String × Rat) :
     Except String (Stages Rat) := do
@@ -229,7 +278,7 @@ def stftEntry (j : Json) : Except String Json := do
     if hop? = some 0 then throw "hop 0 is outside the model"
     let wnd ← wndOf objs (get "wnd")
     -- the overlap-add strategy is called first (an unexpected keyword raises at the call) …
-    let olaR : Res (Option (Option (OlaCall Rat))) ← match plan.ola with
+    let olaR : Res (Option (Option (OlaCallObj Rat))) ← match plan.ola with
       | .none => pure (.ok (some none))
       | .int _ => throw "ola is an int"
       | .obj tag =>
@@ -253,17 +302,17 @@ def stftEntry (j : Json) : Except String Json := do
     let fo ← objOf objs fnTag
     let fn : String × Rat := (← getStr (← field fo "name"), ← getRat (fieldD fo "arg" (Json.int 0)))
     let st ← stagesOf tr itr bef aft fn
-    let trace := blkGenTrace size hop? wnd st sig
+    let trace := blkGenTraceObj size hop? wnd st sig
     -- specification: what `func` receives (window first), from the closed form of C08
     let hop := hop?.getD size
-    let wres := resolveWndStft size wnd
+    let wres := resolveStftObj size wnd
     let befF := st.before.getD id
     let trF : List Rat → List Rat := match st.transform with | some f => (f · size) | none => id
     let funcSpec : Json := if needsNumpy then Json.null else match wres with
       | .ok w => arr rats (funcInputSpec (ALV.C08.blocksClosed size hop (0 : Rat)) w befF trF sig)
       | .error _ => Json.null
     let some olaCall := ola | stop "numpy-default" [("ola_kwargs", kwSpec), ("func_inputs", funcSpec)]
-    let r := stftRun needsNumpy size hop? wnd st olaCall sig
+    let r := stftRunObj needsNumpy size hop? wnd st olaCall sig
     let runJ := Json.mkObj [
       ("blocks", match r.blocks with | some bs => arr rats bs | none => Json.null),
       ("out", rats r.out), ("err", errJson r.err),
@@ -272,7 +321,7 @@ def stftEntry (j : Json) : Except String Json := do
     let covered : Json := match olaCall, wres with
       | some c, .ok wa =>
         let identity := !needsNumpy && isId tr && isId itr && isId bef && isId aft && fn.1 = "id"
-        match c.size?, resolveWnd size c.wnd with
+        match c.size?, resolveOlaObj size c.wnd with
         | some osz, .ok ws0 =>
           let ohop := c.hop?.getD osz
           let ws := truthy ws0
@@ -294,8 +343,17 @@ def handleCall (entry : String) (j : Json) : Except String Json := do
     let hop? ← optNat j "hop"
     let wnd ← getWnd (optField j "wnd")
     let normalize ← getBool (fieldD j "normalize" (Json.bool true))
-    let m := overlapAddList blks size? hop? wnd normalize
-    pure <| Json.mkObj [("model", outJson m), ("spec", specOf blks size? hop? wnd normalize)]
+    let strategy ← getStr (fieldD j "strategy" (Json.str "list"))
+    -- `overlap_add(…)` / `overlap_add.numpy(…)`: numpy is imported first (absent in the sandbox)
+    let m := if strategy = "list" then overlapAddListObj blks size? hop? wnd normalize
+             else overlapAddNumpyAbsent
+    pure <| Json.mkObj [("model", outJson m),
+      ("spec", if strategy = "list" then specOf blks size? hop? wnd normalize else Json.null)]
+  | "wkinds" =>
+    -- the table of Python object kinds the model knows, for the check against real objects
+    pure <| Json.mkObj [("kinds", arr (fun (k : WKind) => Json.mkObj [("name", Json.str k.name),
+      ("callable", Json.bool k.caps.callable), ("iterable", Json.bool k.caps.iterable),
+      ("stream", Json.bool k.caps.stream)]) WKind.all)]
   | "ola_sig" =>
     -- block a signal with the C08 model, overlap-add the blocks
     let sig ← getList getRat (← field j "sig")
@@ -307,9 +365,9 @@ def handleCall (entry : String) (j : Json) : Except String Json := do
     let wnd ← getWnd (optField j "wnd")
     let normalize ← getBool (fieldD j "normalize" (Json.bool true))
     let blks := ALV.C08.blocks bsize bhop (0 : Rat) sig
-    let m := overlapAddList blks size? hop? wnd normalize
+    let m := overlapAddListObj blks size? hop? wnd normalize
     let covered : Json :=
-      match resolveWnd bsize wnd with
+      match resolveOlaObj bsize wnd with
       | .ok w0 =>
         let w := truthy w0
         let wOk : Bool := match w with | none => true | some l => l.length == bsize
